@@ -5,7 +5,7 @@ Everything outside the subset raises `Unsupported` (the framework records a tran
 raises as a broken proof obligation) -- the translator never guesses.
 Self-test: gen/py2lean_selftest.py translates one small function per construct of the subset
 (gen/py2lean_selftest_src.py) and attaches what CPython computes on a grid of arguments as Lean
-`example`s (729 cases); they are rebuilt whenever this file changes and gate every `gen_*_eq` theorem.
+`example`s (740 cases); they are rebuilt whenever this file changes and gate every `gen_*_eq` theorem.
 
 Use (from a per-property module gen/py2lean_cXX.py):
 
@@ -100,6 +100,7 @@ subscript assignment: all refused)
 """
 import ast
 import os
+import re
 import sys
 
 T_INT, T_BOOL, T_BYTES = "Int", "Bool", "List Int"
@@ -156,6 +157,10 @@ class Func:
 
 
 def lname(n):
+    # names the translator itself uses (temporaries t<k>_, attribute locals self_X, the unpacked values vs) and
+    # the hole `_` cannot be Python locals
+    if n == "_" or n == "vs" or n.startswith("self_") or re.fullmatch(r"t\d+_", n) or not re.fullmatch(r"[A-Za-z_][A-Za-z0-9_]*", n):
+        raise Unsupported(None, f"local name {n!r} is reserved by the translator or not a plain identifier")
     return n + "_" if n in LEAN_KEYWORDS else n
 
 
@@ -192,6 +197,7 @@ class FuncTranslator:
         self.fresh_lists = set()  # locals bound to a list literal (item assignment allowed)
         self.loops = {}          # (while index, locals) -> auxiliary def name
         self.in_while = False
+        self.in_for = False
         self.tmp = 0
         self.nlines = 0
         self.uses_stream = spec.stream is not None
@@ -408,6 +414,8 @@ class FuncTranslator:
         f = node.func
         if node.keywords:
             raise Unsupported(node, "keyword arguments")
+        if isinstance(f, ast.Name) and f.id in ("max", "min", "len", "chr", "ord", "bytearray", "float", "range"):
+            self.mod.require_builtin(node, f.id)
         if isinstance(f, ast.Name) and f.id in ("max", "min") and f.id not in env.d:
             if len(node.args) < 2:
                 raise Unsupported(node, f.id + " of an iterable")
@@ -683,22 +691,37 @@ class FuncTranslator:
         if not (isinstance(it, ast.Call) and isinstance(it.func, ast.Name) and it.func.id == "range" and "range" not in env.d
                 and not it.keywords and len(it.args) in (1, 2) and all(is_nonneg_lit(a) for a in it.args)):
             raise Unsupported(st, "for over anything but range(<literal>[, <literal>])")
+        self.mod.require_builtin(st, "range")
         lo, hi = (0, it.args[0].value) if len(it.args) == 1 else (it.args[0].value, it.args[1].value)
         if hi - lo > 16:
             raise Unsupported(st, "range longer than 16")
         x = st.target.id
+        outer_in_for = self.in_for
 
         def iteration(i, env_i):
             if i >= hi:
-                return after(env_i)
+                return after_out(env_i)
             e = env_i.copy()
             e.set(st, x, T_INT)
 
             def nxt(env2):
                 return iteration(i + 1, env2)
 
+            self.in_for = True
+            try:
+                body = self.block(st.body, e, nxt, (after_out, nxt))
+            finally:
+                self.in_for = outer_in_for
             return self.count([f"-- L{st.lineno}: for {x} in {ast.unparse(it)}:   iteration {x} = {i}",
-                               f"let {lname(x)} : Int := {ilit(i)}"]) + self.block(st.body, e, nxt, (after, nxt))
+                               f"let {lname(x)} : Int := {ilit(i)}"]) + body
+
+        def after_out(env2):
+            # code after the loop is outside the unrolled body again
+            saved, self.in_for = self.in_for, outer_in_for
+            try:
+                return after(env2)
+            finally:
+                self.in_for = saved
 
         return iteration(lo, env)
 
@@ -707,6 +730,10 @@ class FuncTranslator:
             raise Unsupported(st, "while/else")
         if self.in_while:
             raise Unsupported(st, "nested while")
+        if self.in_for:
+            # the statements after the loop differ from one unrolled iteration to the next, the auxiliary
+            # definition (which contains them) is shared: refused
+            raise Unsupported(st, "while inside an unrolled for")
         whiles = sorted((n for n in ast.walk(self.fn) if isinstance(n, ast.While)), key=lambda n: (n.lineno, n.col_offset))
         if len(whiles) != len(self.spec.fuels):
             raise Unsupported(st, f"{len(whiles)} while loops, {len(self.spec.fuels)} fuels given")
@@ -841,6 +868,15 @@ class Module:
         if len(fs) != 1:
             raise Unsupported(self.tree, f"function {spec.name}: {len(fs)} definitions")
         return fs[0]
+
+    def require_builtin(self, node, name):
+        """the module does not rebind a builtin the translator interprets (assignment, def, class, import)"""
+        for n in ast.walk(self.tree):
+            if (isinstance(n, ast.Name) and n.id == name and not isinstance(n.ctx, ast.Load)) \
+                    or (isinstance(n, (ast.FunctionDef, ast.AsyncFunctionDef, ast.ClassDef)) and n.name == name) \
+                    or (isinstance(n, ast.arg) and n.arg == name) \
+                    or (isinstance(n, ast.alias) and n.name != "*" and (n.asname or n.name.split(".")[0]) == name):
+                raise Unsupported(node, f"the module rebinds the builtin {name}")
 
     def require_table(self, node, name):
         """`name` is bound exactly once in the module, at top level, to a list literal"""
